@@ -303,6 +303,14 @@ func main() {
 	}
 	id = strings.ToUpper(id)
 
+	// remove scratch directories of earlier invocations that were killed before they could clean up
+	if old, _ := filepath.Glob("/var/tmp/vcheck-*"); len(old) > 0 {
+		for _, d := range old {
+			if fi, err := os.Stat(d); err == nil && time.Since(fi.ModTime()) > 3*time.Hour {
+				os.RemoveAll(d)
+			}
+		}
+	}
 	scratch, err := os.MkdirTemp("/var/tmp", "vcheck-"+id+"-")
 	if err != nil {
 		die(2, "scratch: %v", err)
